@@ -1,5 +1,26 @@
 import TabulaModel.Util
 import TabulaModel.Model.PdfDoc
+import TabulaModel.Model.Reader
+/-!
+Line protocol of C01 (bytes are lower-case hex, `-` = empty):
+
+* `c01.ptree <tree>` — page-tree flattening (`PdfDoc.flatten`)
+* `c01.join <parts>` — content join (`PdfDoc.joinContents`)
+* `c01.read <start> <sections> <objects> <inflate> <nfc>` — the end-to-end reader model
+  (`Reader.readPages`) on an abstract file:
+  - `start`    decimal offset after the last `startxref`
+  - `sections` `;`-separated, in file order: `<offset>/<prev|~>/<root|~>/<entries>` with entries
+               `,`-separated in the order written (`-` = none): `<num>f<next>` free, `<num>n<offset>`
+               in use, `<num>c<stm>.<idx>` compressed; `root` = object number named by the
+               trailer's `/Root`
+  - `objects`  `;`-separated, in file order: `<offset>/<num>/p/<body>` (plain object) or
+               `<offset>/<num>/s/<dict>/<data>` (stream: dictionary text, raw data)
+  - `inflate`  `_` or `<in>><out>;…` — zlib's answers (`<out>` = hex or `!`)
+  - `nfc`      `~` or `<pre>><post>;…` — x/text NFC's answers, scalars as `,`-separated hex
+  reply: `ok n=<pages> <page>|<page>…` (`-` when there is no page); a page is its strings
+  separated by `,` (`~` = no string); a string is its scalar values in hex separated by `.`
+  (`-` = empty); or `err` / `unsupported` / `fuel`.
+-/
 namespace Tabula.C01H
 open Tabula Tabula.PdfDoc
 
@@ -52,6 +73,90 @@ def showAttrs (a : Attrs) : String :=
   let rot := match a.rot with | none => "0" | some r => toString r
   s!"{mb}|{res}|{rot}"
 
+/-! ### `c01.read` -/
+
+def unhexN (s : String) : Option (List Nat) := (unhex s).map fun b => b.map (·.toNat)
+
+def optNat (s : String) : Option (Option Nat) := if s == "~" then some none else s.toNat?.map some
+
+def parseEntry (s : String) : Option (Nat × Xref.Entry) :=
+  let digits := s.takeWhile Char.isDigit
+  let rest := (s.drop digits.length).toString
+  match digits.toNat?, rest.toList with
+  | some n, 'f' :: r => (String.ofList r).toNat?.map fun x => (n, .free x)
+  | some n, 'n' :: r => (String.ofList r).toNat?.map fun x => (n, .at x)
+  | some n, 'c' :: r =>
+    match (String.ofList r).splitOn "." with
+    | [a, b] => match a.toNat?, b.toNat? with
+      | some a, some b => some (n, .inStm a b)
+      | _, _ => none
+    | _ => none
+  | _, _ => none
+
+def parseSec (s : String) : Option (Nat × Reader.XSec) :=
+  match s.splitOn "/" with
+  | [off, prev, root, es] => do
+    let off ← off.toNat?
+    let prev ← optNat prev
+    let root ← optNat root
+    let es ← if es == "-" then some [] else (es.splitOn ",").mapM parseEntry
+    pure (off, { entries := es, prev := prev, root := root })
+  | _ => none
+
+def parseSecs (s : String) : Option (List (Nat × Reader.XSec)) :=
+  if s == "-" then some [] else (s.splitOn ";").mapM parseSec
+
+def parseObj (s : String) : Option (Nat × (Nat × Reader.RawBody)) :=
+  match s.splitOn "/" with
+  | [off, num, "p", body] => do
+    let off ← off.toNat?; let num ← num.toNat?; let body ← unhexN body
+    pure (off, (num, .plain body))
+  | [off, num, "s", dict, data] => do
+    let off ← off.toNat?; let num ← num.toNat?; let dict ← unhexN dict; let data ← unhexN data
+    pure (off, (num, .stream dict data))
+  | _ => none
+
+def parseObjs (s : String) : Option (List (Nat × (Nat × Reader.RawBody))) :=
+  if s == "-" then some [] else (s.splitOn ";").mapM parseObj
+
+def parseInflate (s : String) : Option (List (List Nat × Option (List Nat))) :=
+  if s == "_" then some [] else
+  (s.splitOn ";").mapM fun e => match e.splitOn ">" with
+    | [i, o] => do
+      let i ← unhexN i
+      let o ← if o == "!" then some none else (unhexN o).map some
+      pure (i, o)
+    | _ => none
+
+def hexNat? (s : String) : Option Nat :=
+  if s.isEmpty then none else
+  s.toList.foldl (fun acc c => match acc, hexDigitVal c with
+    | some a, some d => some (a * 16 + d) | _, _ => none) (some 0)
+
+def scalars? (s : String) : Option (List Nat) :=
+  if s == "-" then some [] else (s.splitOn ",").mapM hexNat?
+
+def parseNfc (s : String) : Option (List (List Nat × List Nat)) :=
+  if s == "~" then some [] else
+  (s.splitOn ";").mapM fun e => match e.splitOn ">" with
+    | [p, q] => do let p ← scalars? p; let q ← scalars? q; pure (p, q)
+    | _ => none
+
+/-- marks a string whose NFC form the harness did not supply (not a scalar value) -/
+def nfcMissing : Nat := 0x110000
+
+def hexNat (n : Nat) : String := String.ofList (Nat.toDigits 16 n)
+
+def showStr (s : List Nat) : String := if s.isEmpty then "-" else ".".intercalate (s.map hexNat)
+
+def showPage (p : List (List Nat)) : String := if p.isEmpty then "~" else ",".intercalate (p.map showStr)
+
+def showResult : Except Reader.Err (List (List (List Nat))) → String
+  | .ok ps => s!"ok n={ps.length} " ++ (if ps.isEmpty then "-" else "|".intercalate (ps.map showPage))
+  | .error .err => "err"
+  | .error .unsupported => "unsupported"
+  | .error .fuel => "fuel"
+
 def handle (op : String) (args : List String) : String :=
   match op, args with
   | "c01.ptree", [t] =>
@@ -66,6 +171,15 @@ def handle (op : String) (args : List String) : String :=
       let ws := words (joinContents (ps.map (·.map (·.toNat))))
       ",".intercalate (ws.map fun w => hex (w.map UInt8.ofNat))
     | none => "bad-op"
+  | "c01.read", [start, secs, objs, infl, nfc] =>
+    match start.toNat?, parseSecs secs, parseObjs objs, parseInflate infl, parseNfc nfc with
+    | some start, some secs, some objs, some infl, some nfc =>
+      let ext : Reader.Ext := {
+        filt := { inflate := fun x => match infl.find? (fun e => e.1 == x) with | some e => e.2 | none => none,
+                  ccitt := fun _ => none },
+        nfc := fun p => match nfc.find? (fun e => e.1 == p) with | some e => e.2 | none => nfcMissing :: p }
+      showResult (Reader.readPages { objs := objs, secs := secs, start := start } ext)
+    | _, _, _, _, _ => "bad-op"
   | _, _ => "bad-op"
 
 end Tabula.C01H
